@@ -38,7 +38,8 @@ def run(res):
     try:
         lib.proof_stage(res, "C06.v", "Props.C06",
                         ["C06_no_overpay", "C06_ledger_is_in_flight_value", "C06_unbacked_refused",
-                         "C06_balance_rule_is_source", "C06_nonvacuous"], pre=regen)
+                         "C06_balance_rule_is_source", "C06_preimage_records_survive_restart",
+                         "C06_fulfil_records_preimage", "C06_nonvacuous"], pre=regen)
     except gen_rustfn.GenError as e:
         res.violation("the translator cannot read SimpleValidator::validate_payment_balance (a construct outside its "
                       "fragment): %s" % e,
